@@ -2,6 +2,7 @@ import TextxVerif.Proofs.ResolveList
 import TextxVerif.Proofs.Resolve
 import TextxVerif.Proofs.RefList
 import TextxVerif.Proofs.ResolveOrder
+import TextxVerif.Proofs.ResolveSched
 /-!
 # C08 — reference lists keep the textual order of the references
 
@@ -217,5 +218,53 @@ example : (Resolve.loop exP8 5 [1, 2, 9, 0] []).1 = [9] ∧
 /-- two files: the resolver of the file holding references `< 2` sees only those -/
 example : (run (((Resolve.loop exP8 4 [1, 2, 0] []).2.reverse.filter (· < 2)).map exTab)).values (7, 0) =
     [101, 100] := by decide
+
+/-! ## every postponement schedule, literally
+
+`Resolve.Oracle` = any provider behaviour: the answer to a call ("`Postponed`" or not) may depend
+on the whole history of provider calls of the load, hence on the round, on a counter, on state —
+"which references return Postponed on which resolution rounds".  `loopO` is the resolver loop
+under such an oracle. -/
+open Resolve in
+/-- **Order under every schedule, per model file.** Whatever the providers answer on whichever
+call: if the load succeeds, the resolver of every file (`f` = "belongs to the file") holds in
+every list attribute the targets of the attribute's references in textual order. -/
+theorem C08_schedule_keyed (O : Oracle) (refs : List Ref) (n : Nat) (tab : Ref → KRef)
+    (hpos : (refs.map tab).Pairwise (fun a b => a.key = b.key → a.pos < b.pos))
+    (hok : (loopO O n [] refs []).1 = []) (f : Ref → Bool) (k : Key) :
+    (run (((loopO O n [] refs []).2.reverse.filter f).map tab)).values k =
+      (ofKey k ((refs.filter f).map tab)).map (·.tgt) :=
+  C08_keyed_order _ _ (hpos.sublist (List.filter_sublist.map tab))
+    (((loopO_seq_perm O n refs hok).filter f).map tab) k
+
+open Resolve in
+/-- **…and when the load fails:** the lists hold the targets of the references that got
+resolved, in textual order (nothing foreign, nothing twice). -/
+theorem C08_schedule_keyed_result (O : Oracle) (refs : List Ref) (hnd : refs.Nodup) (n : Nat)
+    (tab : Ref → KRef) (hpos : (refs.map tab).Pairwise (fun a b => a.key = b.key → a.pos < b.pos))
+    (f : Ref → Bool) (k : Key) :
+    (run (((loopO O n [] refs []).2.reverse.filter f).map tab)).values k =
+      (ofKey k (((refs.filter (fun r => decide (r ∈ (loopO O n [] refs []).2))).filter f).map tab)).map
+        (·.tgt) := by
+  have hp : ((loopO O n [] refs []).1 ++ (loopO O n [] refs []).2).Perm refs := by
+    simpa using loopO_perm O n [] refs []
+  have hres : (loopO O n [] refs []).2.Nodup := (List.nodup_append.1 (hp.nodup_iff.2 hnd)).2.1
+  have hperm : (loopO O n [] refs []).2.reverse.Perm
+      (refs.filter (fun r => decide (r ∈ (loopO O n [] refs []).2))) := by
+    refine (List.perm_ext_iff_of_nodup ((List.reverse_perm _).nodup_iff.2 hres)
+      (hnd.sublist List.filter_sublist)).2 ?_
+    intro x
+    simp only [List.mem_reverse, List.mem_filter, decide_eq_true_eq]
+    exact ⟨fun hx => ⟨hp.subset (List.mem_append_right _ hx), hx⟩, fun h => h.2⟩
+  exact C08_keyed_order _ _ (hpos.sublist ((List.filter_sublist.trans List.filter_sublist).map tab))
+    ((hperm.filter f).map tab) k
+
+/-! non-vacuity: the first reference of `0 1 2` is postponed once (a counting provider) -/
+example : (Resolve.loopO (Resolve.countOracle fun r => if r = 0 then 1 else 0) 4 [] [0, 1, 2] []) =
+    ([], [0, 2, 1]) := by decide
+example : ([0, 1, 2].map fun r => (⟨(7, 0), 3 * r, 100 + r⟩ : KRef)).Pairwise
+    (fun a b => a.key = b.key → a.pos < b.pos) := by decide
+example : (run ((Resolve.loopO (Resolve.countOracle fun r => if r = 0 then 1 else 0) 4 [] [0, 1, 2] []).2.reverse.map
+    fun r => (⟨(7, 0), 3 * r, 100 + r⟩ : KRef))).values (7, 0) = [100, 101, 102] := by decide
 
 end RefList
